@@ -316,8 +316,6 @@ def rows_c12(d, rng):
         rows.append({"d": d["id"], "ep": "sort", "ins": sorts})
     rows.append({"d": d["id"], "ep": "canon", "ins": ins[::2]})
     if d.get("const_inputs"):
-        nan = [0x7fc00000, 0xffc00001, 0x7f800000] if d["ty"] == "f32" else [0x7ff8000000000000, 0xfff8000000000001, 0x7ff0000000000000]
-        d["const_inputs"] = list(d["const_inputs"])[:5] + nan      # NaN payloads and +inf also through rustc's const evaluator
         ep = "try_new_const" if d["vmode"] != "none" else "new_const"
         rows = [r for r in rows if r["ep"] != ep]
         rows.append({"d": d["id"], "ep": ep, "ins": [{"i": i, "v": VL.enc_value(d, v)} for i, v in enumerate(d["const_inputs"])]})
